@@ -71,6 +71,10 @@ pub fn gen(tier: &str, seed: u64, emit: &mut dyn FnMut(String)) {
     // long streams, random chunkings
     for _ in 0..(if big { 400 } else { 40 }) {
         let (m, _t, _p) = valid_stream(&mut rng, 2, 2, true);
+        let mut m = m;
+        // now and then a burst of 60..140 chunks without a sync byte in the middle of the stream
+        if rng.chance(1, 3) { let at = rng.below(m.pkts.len() as u64 + 1) as usize; let n = rng.range(60, 140) as usize;
+            for _ in 0..n { let mut g = rng.bytes(188); if g[0] == 0x47 { g[0] = 0x46; } m.pkts.insert(at, g); } }
         group += 1;
         for v in 0..6 {
             let mut chunks: Vec<Vec<u8>> = vec![]; let mut cur: Vec<u8> = vec![];
